@@ -133,7 +133,7 @@ def _check(case, cfg, files_raw, paths, d, res, ctx) -> None:  # noqa: ANN001
             dup = [k for k, c in collections.Counter(ids).items() if c > 1][:5]
             alld = sorted(k for k, c in collections.Counter(ids).items() if c > 1)
             res.bad("one-row-per-event", f"rank {r}: duplicate event ids {dup}", rank=r, dup_ids=alld, trimming=trimming,
-                    dup_events=[{"name": exp[k].name, "corr": exp[k].corr} for k in alld if k in exp][:50])
+                    dup_events=[{"name": exp[k].name, "corr": exp[k].corr} for k in alld if k in exp])
         extra = sorted(set(ids) - set(exp))[:5]
         if extra:
             res.bad("only-complete-events", f"rank {r}: rows for non-complete entries {extra}: {[files_raw[r]['traceEvents'][i] for i in extra[:2]]}")
